@@ -16,6 +16,8 @@ var secureOriginAtoms = []string{
 	"http://127.0.0.1", "http://127.0.0.1:9090", "http://127.0.0.1:*", "http://[::1]", "http://[::1]:9090",
 	"https://foo.bar.example.net", "https://*.bar.example.net:8443", "https://xn--xample-9ua.com", "https://example.com:*",
 	"https://sub.example.com", "https://xexample.com", "connector://localhost",
+	// not public suffixes although they look like it: exception rules (!city.kawasaki.jp, !www.ck) and the parent of a wildcard rule
+	"https://*.city.kawasaki.jp", "https://*.www.ck", "https://*.kawasaki.jp:*", "https://*.compute.amazonaws.com",
 }
 
 var insecureOriginAtoms = []string{
@@ -24,7 +26,11 @@ var insecureOriginAtoms = []string{
 	"http://foo.example.org.", "ws://example.com",
 }
 
-var pslOriginAtoms = []string{"https://*.com", "https://*.co.uk:*", "https://*.github.io:8080", "https://*.com.", "https://*.org:8443"}
+// public suffixes of 1 to 6 labels, from the ICANN and the private section of the list, with and without trailing dot and port
+var pslOriginAtoms = []string{"https://*.com", "https://*.co.uk:*", "https://*.github.io:8080", "https://*.com.", "https://*.org:8443",
+	"https://*.pvt.k12.ma.us", "https://*.us-east-1.amazonaws.com:*", "https://*.s3.dualstack.us-east-1.amazonaws.com", "https://*.s3.dualstack.us-east-1.amazonaws.com.:8443",
+	"https://*.execute-api.cn-north-1.amazonaws.com.cn", "https://*.s3-accesspoint.dualstack.cn-north-1.amazonaws.com.cn:*",
+	"https://*.x.kawasaki.jp", "https://*.ck:8443"} // wildcard rules of the list (*.kawasaki.jp, *.ck)
 
 var longMethod = "M" + strings.Repeat("ethod", 20) // 101 bytes, mixed case
 
@@ -36,6 +42,28 @@ var reqHdrAtoms = []string{longHeader, strings.ToLower(longHeader[:64]), longHea
 	"X-H01", "x-h02", "X-H03", "x-h04", "X-H05", "x-h06", "X-H07", "x-h08", "X-H09", "x-h10", "X-H11", "x-h12", "x_under", "x.dot", "x+plus", "a^b", "x#1", "x!", "if-none-match", "range"}
 
 var resHdrAtoms = []string{longHeader, longHeader[:65], "X-Resp", "x-resp", "Content-Type", "Cache-Control", "X-Other", "ETag", "Content-Length", "x-a", "X-B", "Location"}
+
+// genOriginFamily draws 2-6 patterns from one family of nested hosts
+// (example.com, api.example.com, v2.api.example.com, x.v2.api.example.com),
+// each plain or under a leading wildcard, with no port, a fixed port or any
+// port, so that patterns sit above, below and beside each other in any order.
+func genOriginFamily(t *rapid.T, secureOnly bool) []Str {
+	hosts := []string{"example.com", "api.example.com", "v2.api.example.com", "x.v2.api.example.com", "www.example.com", "b.api.example.com"}
+	n := intIn(t, "nfamily", 2, 6)
+	var out []Str
+	for i := 0; i < n; i++ {
+		scheme := "https"
+		if !secureOnly && chance(t, "famhttp", 25) {
+			scheme = "http"
+		}
+		h := pick(t, "famhost", hosts)
+		if chance(t, "famwild", 35) {
+			h = "*." + h
+		}
+		out = append(out, Str(scheme+"://"+h+pick(t, "famport", []string{"", "", ":8443", ":*", ":8080"})))
+	}
+	return out
+}
 
 type cfgOpts struct {
 	noAllowAll bool
@@ -75,6 +103,8 @@ func genValidCfgOpt(t *rapid.T, o cfgOpts) Cfg {
 		} else {
 			c.Origins = patStrings(genPatList(t))
 		}
+	} else if chance(t, "familyorigins", 25) {
+		c.Origins = genOriginFamily(t, secureOnly)
 	} else {
 		n := listLen(t, "norigins", 1, 4)
 		for i := 0; i < n; i++ {
